@@ -316,6 +316,15 @@ class Report:
                 print("VIOLATION property=%s replay=%s" % (self.prop, path))
                 print("  " + msg)
             return 1
+        unconf = list(self.extra.get("unconfirmed") or []) if isinstance(self.extra.get("unconfirmed"), list) else []
+        nstage = sum(int(s.get("unconfirmed") or 0) for s in self.stages)
+        if unconf or nstage:
+            # a rejection that a fresh execution did not reproduce is neither a verdict nor a pass
+            print("INCONCLUSIVE property=%s: %d rejected trace(s) / mismatch(es) were not reproduced on re-execution" % (
+                self.prop, len(unconf) + nstage))
+            for d in unconf[:3]:
+                print("  " + d[:300])
+            return 2
         print("OK property=%s tier=%s states=%d transitions=%d traces=%d steps=%d wall=%.0fs" % (
             self.prop, self.tier, self.states, self.transitions, self.traces, self.steps, wall))
         return 0
@@ -539,7 +548,7 @@ def split_walks(path):
 
 
 def walk_stage(rep, work, name, module, constants, systems, kind, opts="", invariants=(), view="View",
-               emit="Emit", tlc_workers=1, every=1, timeout=1800, maxextra=1):
+               emit="Emit", tlc_workers=1, every=1, timeout=1800, maxextra=1, keys="plain"):
     """TLC emits store states (tours with `fin`); the harness reaches each and
     records paginated walks; TLC validates the recorded walks."""
     tag = re.sub(r"\W", "_", name)
@@ -548,7 +557,7 @@ def walk_stage(rep, work, name, module, constants, systems, kind, opts="", invar
     trace = work.path("walk.%s.ndjson" % tag)
     out = work.path("walk.%s.json" % tag)
     cmd = [HARNESS, "walk", "--kind", kind, "--systems", ",".join(systems), "--opts", opts, "--seed", str(rep.seed),
-           "--trace", trace, "--out", out, "--every", str(every), "--maxextra", str(maxextra)]
+           "--trace", trace, "--out", out, "--every", str(every), "--maxextra", str(maxextra), "--keys", keys]
     p = subprocess.Popen(cmd, stdin=subprocess.PIPE, stderr=subprocess.PIPE, bufsize=1 << 20)
     errbuf = []
     t = threading.Thread(target=lambda: errbuf.extend(p.stderr.readlines()), daemon=True)
@@ -636,7 +645,7 @@ def walk_stage(rep, work, name, module, constants, systems, kind, opts="", invar
             bytes(start.get("delim") or []).decode("utf-8", "replace"), start.get("sys"), off,
             json.dumps([(len(pg.get("ents") or []), len(pg.get("prefixes") or []), pg.get("trunc"), pg.get("note", "")) for pg in pages if pg["t"] == "page"])[:300])
         # confirm on a fresh execution of the same tour
-        confirmed = confirm_walk(work, kind, start, rep.seed, opts, tours_path, maxextra)
+        confirmed = confirm_walk(work, kind, start, rep.seed, opts, tours_path, maxextra, keys)
         if not confirmed:
             rep.extra.setdefault("unconfirmed", []).append(desc)
             continue
@@ -655,11 +664,11 @@ def walk_stage(rep, work, name, module, constants, systems, kind, opts="", invar
     return summ
 
 
-def confirm_walk(work, kind, start, seed, opts, tours_path, maxextra):
+def confirm_walk(work, kind, start, seed, opts, tours_path, maxextra, keys="plain"):
     """Re-execute the tour the rejected walk belongs to and validate again."""
     trace = work.path("confirm.ndjson")
     cmd = [HARNESS, "walk", "--kind", kind, "--systems", start.get("sys", "mem"), "--opts", opts, "--seed", str(seed),
-           "--trace", trace, "--only", str(start.get("tour", 0)), "--maxextra", str(maxextra)]
+           "--trace", trace, "--only", str(start.get("tour", 0)), "--maxextra", str(maxextra), "--keys", keys]
     with open(tours_path, "rb") as f:
         p = subprocess.run(cmd, stdin=f, capture_output=True)
     if p.returncode != 0:
